@@ -171,8 +171,13 @@ func (f *frame) deferInstr(x *ssa.Defer) {
 	for _, ds := range f.defers {
 		if ds.instr == x {
 			ds.args = []sval{}
-			for _, a := range x.Call.Args {
-				ds.args = append(ds.args, f.val(a))
+			for i, a := range x.Call.Args {
+				v := f.val(a)
+				if i < len(ds.argCells) && ds.argCells[i] != nil && v.e != nil {
+					t.cur.Assign(ds.argCells[i], v.e)
+					v.e = ds.argCells[i]
+				}
+				ds.args = append(ds.args, v)
 			}
 			if mc, ok := x.Call.Value.(*ssa.MakeClosure); ok {
 				for _, b := range mc.Bindings {
